@@ -8,7 +8,7 @@ proof  : props/C13.v over the GENERATED gen/FuncGen.v (translate_func.py: get_fu
 K      : on every run the REAL FunctionalAssignment.get_func_moment is called for every family,
          sampled parameters and exponent triples (exact and rounding mode) and compared with an
          INDEPENDENT oracle: the defining finite sum (discrete families) / mpmath quadrature of the
-         defining integral over the support (continuous families) at 50 digits; whole programs with
+         defining integral over the support (continuous families) at 40 digits; whole programs with
          Sin/Cos/Exp assignments of draws and constants: Polar's closed forms at n <= N against the
          expectation computed in the harness (enumeration of discrete draws, quadrature of the
          continuous draw, exact moment recursion for accumulators); the translated dispatch is run
@@ -22,11 +22,22 @@ from fractions import Fraction
 
 import lib
 
-DPS = 50
+DPS = 40
 EXACT_TOL = "1e-25"
 ROUND_TOL = "2e-19"
 ORACLE_ERR_MAX = "1e-30"
 KNOWN_SIG = "get_func_moment:Expt-typo:mixed-exp-trig"
+KNOWN_BETA = "get_trig_moment:Beta:cf-piecewise:frequency-0-derivative-dropped"
+
+
+def zero_freq_coefficient(b, c):
+    """coefficient K(-1)^(b/2)/2^(b+c) of E[X^a] contributed by the frequency-0 terms of the product-to-sum
+    expansion of sin^b cos^c (the constant term of sin^b x cos^c x); 0 unless b and c are even"""
+    if (b + c) % 2 or b % 2:
+        return Fraction(0)
+    K = sum(math.comb(c, k1) * math.comb(b, k2) * (-1) ** (b - k2)
+            for k1 in range(c + 1) for k2 in range(b + 1) if 2 * (k1 + k2) == b + c)
+    return Fraction(K * (-1) ** (b // 2), 2 ** (b + c))
 
 
 # =====================================================================================
@@ -347,13 +358,11 @@ def oracle_program(job):
     return {"values": out, "err": mp.nstr(errs[0], 5)}
 
 
-def _pool_map(fn, jobs, procs=12):
-    if not jobs:
-        return []
+def _pool_start(named_jobs, procs=6):
+    """named_jobs: list of (function name, job); -> (pool, async result); runs beside the Polar workers"""
     import multiprocessing as mpc
-    ctx = mpc.get_context("fork")
-    with ctx.Pool(min(procs, len(jobs))) as pool:
-        return pool.map(_guard, [(fn.__name__, j) for j in jobs], chunksize=1)
+    pool = mpc.get_context("fork").Pool(max(1, min(procs, len(named_jobs))))
+    return pool, pool.map_async(_guard, named_jobs, chunksize=1)
 
 
 def _guard(a):
@@ -390,8 +399,10 @@ def moment_requests(ctx):
     if not ctx.quick:
         trig += [(a, b, c) for a in range(3) for (b, c) in ((3, 0), (0, 3), (3, 1), (1, 3), (3, 2), (2, 3), (4, 0), (0, 4))]
     expo = [(a, d) for a in range(amax + 1) for d in (1, 2, 3)]
+    # always present: frequency 0 with and without an identity power, odd/even mixes
+    forced = [(1, 2, 0), (0, 1, 1), (1, 0, 2), (2, 1, 1), (0, 2, 0), (1, 1, 0)]
     for fam, plist in FAMILY_PARAMS.items():
-        nps = ctx.pick(1 if fam in SLOW else 2, len(plist))
+        nps = ctx.pick(1, len(plist))
         chosen = ctx.rng.sample(plist, min(nps, len(plist)))
         for params in chosen:
             if fam == "Categorical":
@@ -400,9 +411,14 @@ def moment_requests(ctx):
                 continue
             tr = list(trig)
             ex = list(expo)
-            if fam in SLOW and ctx.quick:
-                tr = ctx.rng.sample(tr, 7)
-                ex = ctx.rng.sample(ex, 3)
+            if ctx.quick:
+                if fam in SLOW or fam == "DiscreteUniform":
+                    # sympy is slow on these closed forms (TruncNormal erf, Beta Piecewise, DiscreteUniform quotient)
+                    tr = [t for t in forced if t[0] <= 1][:4] + ctx.rng.sample([t for t in tr if t[0] <= 1 and t not in forced], 3)
+                    ex = ctx.rng.sample(ex, 3)
+                else:
+                    tr = forced + ctx.rng.sample([t for t in tr if t not in forced], 9)
+                    ex = ctx.rng.sample(ex, 5)
             for a, b, c in tr:
                 pw = {k: v for k, v in (("Id", a), ("Sin", b), ("Cos", c)) if v}
                 reqs.append((fam, params, pw, True))
@@ -410,10 +426,10 @@ def moment_requests(ctx):
                 pw = {k: v for k, v in (("Id", a), ("Exp", d)) if v}
                 reqs.append((fam, params, pw, True))
             # rounding mode on a sample
-            for a, b, c in ctx.rng.sample(tr, min(len(tr), ctx.pick(3, 8))):
+            for a, b, c in ctx.rng.sample(tr, min(len(tr), ctx.pick(2, 8))):
                 pw = {k: v for k, v in (("Id", a), ("Sin", b), ("Cos", c)) if v}
                 reqs.append((fam, params, pw, False))
-            for a, d in ctx.rng.sample(ex, min(len(ex), ctx.pick(2, 4))):
+            for a, d in ctx.rng.sample(ex, min(len(ex), ctx.pick(1, 4))):
                 pw = {k: v for k, v in (("Id", a), ("Exp", d)) if v}
                 reqs.append((fam, params, pw, False))
     # mixed Sin/Cos + Exp requests: must be rejected ("Exp can be mixed with Id" only)
@@ -445,6 +461,7 @@ def gen_programs(ctx):
     if not ctx.quick:
         cont += [("Beta", ["2", "3"]), ("TruncNormal", ["0", "1", "-1", "3"]), ("Gamma", ["1/2", "1/4"])]
     anyd = disc + cont
+    accd = [d for d in anyd if d[0] != "DiscreteUniform"] if ctx.quick else anyd
     fr = lambda: str(Fraction(rng.randint(-4, 4), rng.randint(1, 3)))   # noqa
     frnz = lambda: str(Fraction(rng.choice([-3, -2, -1, 1, 2, 3]), rng.randint(1, 3)))   # noqa
 
@@ -478,7 +495,7 @@ def gen_programs(ctx):
         out.append(("T1-exp", {"init": init, "body": body}, None, goals_of(rng.sample(pool, min(3, len(pool)))), True))
     # T2 additive accumulator
     for _ in range(n_each):
-        d = rng.choice(anyd)
+        d = rng.choice(accd)
         init, body = trig_locals(d)
         init["s"] = fr()
         lam = rng.choice([{"y": 1}, {"z": 1}, {"y": 1, "z": 1}, {"x": 1, "y": 1}, {"y": 2}])
@@ -488,7 +505,7 @@ def gen_programs(ctx):
                     goals_of([{"s": 1}, {"s": 2}, rng.choice([{"s": 1, "y": 1}, {"s": 1, "z": 1}, {"s": 1, "x": 1, "y": 1}])]), True))
     # T3 multiplicative accumulator
     for _ in range(n_each):
-        d = rng.choice(anyd)
+        d = rng.choice(accd)
         init, body = trig_locals(d)
         init["s"] = frnz()
         f = rng.choice(["y", "z"])
@@ -674,7 +691,7 @@ def run(ctx):
             proof_ok = True
     ctx.coverage["trusted_base"] += [
         "harness/translate_func.py (Python ast -> Gallina, fail-closed; math.comb read as the binomial coefficient)",
-        "mpmath 50-digit arithmetic and tanh-sinh quadrature (oracle of the correspondence check: VALIDATION, not proof)",
+        "mpmath 40-digit arithmetic and tanh-sinh quadrature (oracle of the correspondence check: VALIDATION, not proof)",
         "sympy N(.,45) evaluating the exact expression Polar returned",
     ]
     ctx.assumptions += [
@@ -695,7 +712,7 @@ def run(ctx):
     if rd and "request" in rd:
         q = rd["request"]
         reqs = [(q["family"], q["params"], q["powers"], q.get("exact", True))]
-    tasks = [{"kind": "func_moment", "family": f, "params": p, "powers": pw, "exact": ex, "timeout": 120}
+    tasks = [{"kind": "func_moment", "family": f, "params": p, "powers": pw, "exact": ex, "timeout": ctx.pick(60, 150)}
              for f, p, pw, ex in reqs]
     # constants
     crs = []
@@ -708,22 +725,37 @@ def run(ctx):
     if rd and "prog" in rd:
         progs = [(rd.get("label", "replay"), rd["prog"], rd.get("acc"), rd["goals"], rd.get("exact", True))]
     nmax = ctx.pick(3, 4)
-    ptasks = [{"kind": "func_program", "text": prog_text(pr), "goals": list(goals), "exact": ex, "nmax": nmax, "timeout": 150}
+    ptasks = [{"kind": "func_program", "text": prog_text(pr), "goals": list(goals), "exact": ex, "nmax": nmax, "timeout": ctx.pick(60, 150)}
               for _, pr, _, goals, ex in progs]
     # oracles first (harness processes), then Polar
     ojobs = {}
     for f, p, pw, ex in reqs:
         key = json.dumps([f, p, pw], sort_keys=True)
         ojobs.setdefault(key, {"family": f, "params": p, "powers": pw})
+        if f == "Beta" and pw.get("Id", 0) >= 1 and zero_freq_coefficient(pw.get("Sin", 0), pw.get("Cos", 0)) != 0:
+            pw1 = {"Id": pw["Id"]}                         # E[X^a]: the frequency-0 term of the expansion
+            ojobs.setdefault(json.dumps([f, p, pw1], sort_keys=True), {"family": f, "params": p, "powers": pw1})
         if set(pw) & {"Sin", "Cos"} and "Exp" in pw:       # what the trig branch would answer
             pw2 = {k: v for k, v in pw.items() if k != "Exp"}
             ojobs.setdefault(json.dumps([f, p, pw2], sort_keys=True), {"family": f, "params": p, "powers": pw2})
     okeys = list(ojobs)
     pjobs = [{"prog": pr, "goals": goals, "nmax": nmax, "acc": acc} for _, pr, acc, goals, _ in progs]
-    ores = _pool_map(oracle_moment, [ojobs[k] for k in okeys])
-    oracle = dict(zip(okeys, ores))
-    pres_o = _pool_map(oracle_program, pjobs)
-    allres = lib.run_tasks(tasks + ctasks + ptasks, timeout=150)
+    import time
+    tm = {"setup": round(ctx.elapsed(), 1)}
+    t0 = time.time()
+    pool, pending = _pool_start([("oracle_moment", ojobs[k]) for k in okeys] + [("oracle_program", j) for j in pjobs])
+    try:
+        allres = lib.run_tasks(tasks + ctasks + ptasks, timeout=ctx.pick(60, 150), jobs=10)
+        tm["polar"] = round(time.time() - t0, 1)
+        ores_all = pending.get(timeout=1500)
+    finally:
+        pool.terminate()
+    tm["polar_and_oracle"] = round(time.time() - t0, 1)
+    oracle = dict(zip(okeys, ores_all[:len(okeys)]))
+    pres_o = ores_all[len(okeys):]
+    tm["polar_slowest"] = sorted(((round(r.get("secs", 0), 1), (t.get("family") or t.get("text", "")[:0] or t["kind"]), str(t.get("powers") or t.get("goals")))
+                                  for t, r in zip(tasks + ctasks + ptasks, allres) if isinstance(r, dict)), reverse=True)[:12]
+    ctx.coverage["timing"] = tm
     mres, cres, pres = allres[:len(tasks)], allres[len(tasks):len(tasks) + len(ctasks)], allres[len(tasks) + len(ctasks):]
 
     stats = {"agree": 0, "rejected_correctly": 0, "refusals": {}, "oracle_imprecise": 0, "known": 0}
@@ -795,6 +827,12 @@ def run(ctx):
             if "value" in o2 and close(mp, val, mp.mpf(o2["value"]), EXACT_TOL):
                 sig = KNOWN_SIG     # exactly the trig-only answer: the exponential factor was ignored
                 what += " — the value is that of the request without the Exp power"
+        elif f == "Beta" and pw.get("Id", 0) >= 1:
+            kz = zero_freq_coefficient(pw.get("Sin", 0), pw.get("Cos", 0))
+            o1 = oracle.get(json.dumps([f, p, {"Id": pw["Id"]}], sort_keys=True), {})
+            if kz != 0 and "value" in o1 and close(mp, val, truth - _q(mp, kz) * mp.mpf(o1["value"]), tol):
+                sig = KNOWN_BETA    # exactly the true value minus the frequency-0 term K E[X^a]
+                what += f" — the difference is the frequency-0 term {kz}*E[X^{pw['Id']}] of the product-to-sum expansion"
         new = ctx.violation(sig, {"request": label, "polar": r, "true_value": o["value"], "oracle_error_estimate": o["err"]}, what)
         if not new:
             stats["known"] += 1
@@ -829,6 +867,7 @@ def run(ctx):
         if "goals" not in r:
             et = r.get("etype", r.get("error"))
             pst["refusals"][et] = pst["refusals"].get(et, 0) + 1
+            pst.setdefault("refusal_examples", {}).setdefault(et, {"text": text, "msg": str(r.get("msg"))[:200]})
             if lab.startswith("W-") or et in ("timeout",):
                 continue
             # the generated shapes are inside the documented class: a refusal is C18's business, noted here
@@ -839,6 +878,7 @@ def run(ctx):
             ctx.count({"prog": text, "goal": g, "exact": ex}, nontrivial=True)
             if "raised" in gr:
                 pst["refusals"][gr["raised"]] = pst["refusals"].get(gr["raised"], 0) + 1
+                pst.setdefault("refusal_examples", {}).setdefault(gr["raised"], {"text": text, "goal": g, "msg": gr.get("msg")})
                 continue
             if imprecise:
                 pst["oracle_imprecise"] += 1
@@ -865,6 +905,15 @@ def run(ctx):
                     per_arg.setdefault(st[3], set()).add(st[2])
             mixed = any("Exp" in fs and fs & {"Sin", "Cos"} for fs in per_arg.values())
             sig = KNOWN_SIG if mixed else f"program:{lab}:{g}:{json.dumps(prog, sort_keys=True)}"
+            if not mixed:
+                # shape of the Beta finding: a Beta draw with an identity power >= 1 and an even total
+                # Sin/Cos power >= 2 of its functions in the goal (attribution by shape, thorough tier only)
+                for st in _flat(prog["body"]):
+                    if st[0] == "draw" and st[2] == "Beta" and mon.get(st[1], 0) >= 1:
+                        tp = sum(mon[q[1]] for q in _flat(prog["body"])
+                                 if q[0] == "func" and q[3] == st[1] and q[2] in ("Sin", "Cos") and q[1] in mon)
+                        if tp >= 2 and tp % 2 == 0:
+                            sig = KNOWN_BETA
             what = (f"program with Sin/Cos/Exp assignments, goal E({g}) at n={n}: Polar's closed form {gr['closed_form'][:100]} "
                     f"gives {str(pv)[:60]}, the true expectation is {tv[:40]}")
             new = ctx.violation(sig, {"prog": prog, "acc": acc, "goals": goals, "exact": ex, "label": lab, "text": text, "goal": g,
